@@ -7,7 +7,7 @@ if ! git apply --check "$D/patch.diff" 2>/dev/null; then echo "PATCH DOES NOT AP
 PYTHONPATH=/repo /venv/bin/python "$D/demo.py" > /tmp/demo_clean.log 2>&1; echo "demo on clean tree: rc=$?"
 git apply "$D/patch.diff"
 PYTHONPATH=/repo /venv/bin/python "$D/demo.py" > /tmp/demo_patched.log 2>&1; echo "demo on patched tree: rc=$?"
-/verif/tools_baseline.sh 2>&1 | grep -v conda | tail -1
+[ -n "$SEED_EVAL_NO_BASELINE" ] || /verif/tools_baseline.sh 2>&1 | grep -v conda | tail -1
 for c in "$@"; do
   out=$(cd /verif && ./check $c quick 2>&1); rc=$?
   echo "== $c rc=$rc: $(echo "$out" | grep -c '^VIOLATION') violation line(s); $(echo "$out" | grep -m2 'detail' | cut -c1-220 | tr '\n' '|')"
